@@ -520,7 +520,13 @@ class Parser:
         if "e" not in value and "E" not in value:
             # Without an exponent, going through float would lose precision
             # for integers that need more than 53 bits.
-            return IntegerLiteral(value=int(value))
+            try:
+                return IntegerLiteral(value=int(value))
+            except ValueError as err:
+                # More digits than Python's integer string conversion limit.
+                raise JSONPathSyntaxError(
+                    "integer literal out of range", token=stream.current
+                ) from err
 
         # Convert to float first to handle scientific notation.
         try:
